@@ -235,13 +235,9 @@ func (e *env) staleRound(r *hx.RNG, k *kindOps, force bool) {
 		if len(bad) > 0 {
 			desc := fmt.Sprintf("one real %s round (%s, last=%d) whose batch read was answered by a lagging server for %d object(s) returned SUCCESS with index %d, yet: %s; writes: %v. The next round starts from %d and skips these objects.",
 				k.name, lastTag, last, hits, ret, strings.Join(bad, "; "), ws, ret)
-			if k == tokenOps {
-				// listed in known_findings.txt: aclTokenReplicator.ensureRemoteConsistent is a stub
-				// (always nil), so the unchanged tree upserts stale token content and reports success
-				run.Violate(sig+":round-succeeded-on-stale-batch-read:token-replicator-has-no-guard", desc, replay)
-			} else {
-				run.Violate(sig+":round-succeeded-on-stale-batch-read:secondary-differs-at-or-below-returned-index", desc, replay)
-			}
+			// policies and tokens carry the same guard (ensureRemoteConsistent): no classifier,
+			// any round that succeeds on stale content is a plain violation
+			run.Violate(sig+":round-succeeded-on-stale-batch-read:secondary-differs-at-or-below-returned-index", desc, replay)
 		}
 		run.Tag("stale:round-succeeded")
 	}
